@@ -77,6 +77,13 @@ func vpCommitFor(keys []ed25519.PrivKey, vals *types.ValidatorSet, b *types.Bloc
 			cs = types.NewCommitSigAbsent()
 		case 3: // genuine signature, but the slot names another validator (the sign bytes do not cover the address)
 			cs.ValidatorAddress = vals.Validators[(i+1)%len(vals.Validators)].Address
+		case 4: // the validator genuinely precommitted nil in that round
+			vote.BlockID = types.BlockID{}
+			nsig, err := key.Sign(types.VoteSignBytes(vpChain, vote.ToProto()))
+			if err != nil {
+				panic(err)
+			}
+			cs = types.CommitSig{BlockIDFlag: types.BlockIDFlagNil, ValidatorAddress: v.Address, Timestamp: ts, Signature: nsig}
 		}
 		sigs[i] = cs
 	}
@@ -123,7 +130,7 @@ func vpC13Accept() {
 	}
 	kinds := make([]int, 4)
 	for i := range kinds {
-		kinds[i] = vp.Choice("commit-slot", 4)
+		kinds[i] = vp.Choice("commit-slot", 5)
 	}
 	commitFor := canon1
 	if vp.Choice("commit-is-for", 2) == 1 {
@@ -145,7 +152,7 @@ func vpC13Accept() {
 	// the early-exit rule: signatures are checked in slot order until +2/3 is reached; an invalid one before that point refuses the commit
 	lightAccepts, tally := false, 0
 	for i := range kinds {
-		if kinds[i] == 2 {
+		if kinds[i] == 2 || kinds[i] == 4 { // absent, or a precommit for nil: neither is looked at
 			continue
 		}
 		if kinds[i] == 1 {
